@@ -23,3 +23,11 @@ add("C13", ["timer_batches"], "exploration",
     "Seeded search over timed histories of timer register writes and elapsed-time gaps; the real Timer runs under three batch partitions of the same time and is compared after every operation with a per-clock reference model and with the other partitions. Sampling, not proof; evidence reports TAC-write transition cells reached.",
     "Trusts the RefTimer model (per-clock divider, falling-edge rule from the statement); DIV-write edge left open (spec set).",
     DST + ": batch-partition schedules vs per-clock reference model", "DESIGN.md section 4 C13")
+add("C14", ["lcd_batches"], "exploration",
+    "Seeded timed histories (2-8 frames) with STAT/LYC writes; the real VideoState runs under three partitions of each gap (every machine cycle, per line, drawn sizes straddling mode changes and the 143->144 / 153->0 hand-overs) directly and through the bus; LY, mode, STAT read-back and the VBlank/STAT request bits of every batch are compared with a closed-form 70224-clock schedule; on the 4-clock partition every request is pinned to its machine cycle and VBlank spacing must be exactly 70224.",
+    "Trusts the closed-form RefLcd (from the statement). A STAT request raised by a STAT/LYC register write whose condition already holds is allowed, not required.",
+    DST + ": batch-partition schedules vs closed-form reference", "DESIGN.md section 4 C14")
+add("C17", ["joypad_events"], "exploration",
+    "Random walks over the (8 buttons x 2 select bits) state space with external press/release events, select writes and drawn collection points, on the real Joypad directly and through the bus/IO path; P1 & 0x3F after every action and the request latch at every collection point are compared with RefJoypad. The evidence reports how many of the 20480 transitions were taken (all, in the quick tier).",
+    "Trusts RefJoypad (from the statement). Sampling of walks; the full transition relation is reached but interleavings of collection points are sampled.",
+    DST + ": external-event schedules vs reference button-matrix model", "DESIGN.md section 4 C17")
